@@ -93,6 +93,12 @@ def cont1_2(ctx: Ctx) -> None:
                 break
         label = norm(call)[:70]
         if good is None:
+            # inside `with <manager defined in this package>(...)`: whether that manager's __exit__ swallows the exception is not followed
+            own_with = [w_ for w_ in mod.ancestors(call) if isinstance(w_, ast.With) and any(isinstance(i_.context_expr, ast.Call) and isinstance(i_.context_expr.func, ast.Name)
+                                                                                                and mod.has(i_.context_expr.func.id) for i_ in w_.items)]
+            if own_with:
+                ctx.R.undecided("CONT-1", f"{why}: `{label}` runs under `with {norm(own_with[0].items[0].context_expr)[:50]}`, a manager defined in the package; whether its __exit__ contains the exception is not followed")
+                continue
             narrow = [norm(h.type) for t in tries for h in t.handlers if h.type is not None]
             ctx.R.fail("CONT-1", mod, call,
                        f"{why}: this call is not inside a try whose handler catches Exception"
@@ -1047,6 +1053,12 @@ def ctx_rules(ctx: Ctx) -> None:
         ok4 = len(w) == 1 and len(r) == 1 and first.body.index(r[0]) > first.body.index(w[0])
         if ok4:
             call = w[0].items[0].context_expr
+            # `P()` with module-level `P = functools.partial(current_options.push, **kw)` is current_options.push(**kw)
+            if isinstance(call, ast.Call) and isinstance(call.func, ast.Name) and not call.args:
+                pa = mod.toplevel_assign(call.func.id)
+                pv = getattr(pa, "value", None)
+                if isinstance(pv, ast.Call) and norm(pv.func) in ("functools.partial", "partial") and len(pv.args) == 1:
+                    call = ast.Call(func=pv.args[0], args=[], keywords=list(pv.keywords) + list(call.keywords))
             kws = {k.arg: norm(k.value) for k in call.keywords} if isinstance(call, ast.Call) else {}
             ex = mod.fn("extract")
             defaults = {a.arg: norm(d) for a, d in zip(ex.args.kwonlyargs, ex.args.kw_defaults)}
@@ -1517,6 +1529,9 @@ def opt7(ctx: Ctx) -> None:
             if isinstance(n, (ast.Name, ast.Attribute, ast.Subscript)) and isinstance(getattr(n, "ctx", None), ast.Store):
                 t = norm(n)
                 if t in ("frame.contexts", "next_pyframe", "context", "ex") :
+                    continue
+                # a name that lives only inside the region (bound and read there, nowhere else in the function) is not engine state
+                if isinstance(n, ast.Name) and not any(isinstance(u_, ast.Name) and u_.id == n.id and not any(u_ is z_ for z_ in ast.walk(r)) for u_ in ast.walk(it)):
                     continue
                 bad.append(t)
             if isinstance(n, ast.Call) and isinstance(n.func, ast.Attribute) and isinstance(n.func.value, ast.Name) \
@@ -2258,17 +2273,28 @@ def asend2(ctx: Ctx) -> None:
         outer = mod.enclosing_def(fn) or mod.tree
         # names bound to type(<agen>.<method>(...)) in the enclosing scope
         probes: Dict[str, str] = {}
+        METH = ("asend", "athrow", "aclose", "__anext__")
+        aw_of = {a.targets[0].id: a.value.func.attr for a in ast.walk(outer) if isinstance(a, ast.Assign) and len(a.targets) == 1 and isinstance(a.targets[0], ast.Name)
+                 and isinstance(a.value, ast.Call) and isinstance(a.value.func, ast.Attribute) and a.value.func.attr in METH}      # x = agen.aclose()
         for a in ast.walk(outer):
-            if isinstance(a, ast.Assign) and len(a.targets) == 1 and isinstance(a.targets[0], ast.Name) and isinstance(a.value, ast.Call) and norm(a.value.func) == "type" and a.value.args \
-                    and isinstance(a.value.args[0], ast.Call) and isinstance(a.value.args[0].func, ast.Attribute) and a.value.args[0].func.attr in ("asend", "athrow", "aclose", "__anext__"):
-                probes[a.targets[0].id] = "send" if a.value.args[0].func.attr in ("asend", "__anext__") else "throw"
+            if isinstance(a, ast.Assign) and len(a.targets) == 1 and isinstance(a.targets[0], ast.Name) and isinstance(a.value, ast.Call) and norm(a.value.func) == "type" and a.value.args:
+                arg0 = a.value.args[0]
+                meth = arg0.func.attr if isinstance(arg0, ast.Call) and isinstance(arg0.func, ast.Attribute) and arg0.func.attr in METH else aw_of.get(arg0.id) if isinstance(arg0, ast.Name) else None
+                if meth:
+                    probes[a.targets[0].id] = "send" if meth in ("asend", "__anext__") else "throw"
         regs = []
         for d in fn.decorator_list:
             if isinstance(d, ast.Call) and isinstance(d.func, ast.Attribute) and d.func.attr == "register" and norm(d.func.value) == "unwrap_stackitem" and d.args:
                 regs.append(norm(d.args[0]))
         for c in ast.walk(outer):
             if isinstance(c, ast.Call) and isinstance(c.func, ast.Attribute) and c.func.attr == "register" and norm(c.func.value) == "unwrap_stackitem" and len(c.args) >= 2 and norm(c.args[-1]) == fn.name:
-                regs.extend(norm(a_) for a_ in c.args[:-1])
+                for a_ in c.args[:-1]:
+                    # registered in a loop over a tuple of types: every element counts
+                    loops_ = [l_ for l_ in mod.ancestors(c) if isinstance(l_, ast.For) and isinstance(l_.target, ast.Name) and norm(a_) == l_.target.id and isinstance(l_.iter, (ast.Tuple, ast.List))]
+                    if loops_:
+                        regs.extend(norm(e_) for e_ in loops_[0].iter.elts)
+                    else:
+                        regs.append(norm(a_))
         got = {probes.get(r) for r in regs}
         unknown = [r for r in regs if r not in probes]
         if unknown:
